@@ -87,6 +87,44 @@ CLAIMED["C14"] = dict(
     technique="deterministic simulation with crash-point enumeration over a simulated file layer",
     engine="E-FS", design_ref="6/C14")
 
+CLAIMED["C07"] = dict(
+    level="exploration",
+    text="Whole task-based RHD runs (do_simulation, pure hydro, 2-4 steps) inside the simulator over generated "
+         "layouts (1-4 subgrids per axis, all periodicity combinations incl. periodic axes with one or two "
+         "subgrids, reflective/inflow/outflow walls) and 1-16 simulated threads. The start/stop trace of every "
+         "hydro task is checked against a task graph derived from layout and boundary types alone: exactly once, "
+         "after all tasks it depends on, never concurrently with a task touching the same subgrid (task start is "
+         "itself a scheduling point), lock of every touched subgrid held by the executing thread, progress-based "
+         "termination verdict, empty counters/queues afterwards, and the code's own task tables match the graph.",
+    note="sequential consistency at AtomicValue granularity; the data-race consequences of a missing lock are seen "
+         "through the overlap / lock-holder oracle, not through a memory model",
+    technique="deterministic simulation: seeded fiber scheduler + trace check against a reference task graph",
+    engine="E-RHD", design_ref="6/C07")
+CLAIMED["C10"] = dict(
+    level="exploration",
+    text="Same simulated RHD runs with a fixed time step; after every step all cell states (conserved and "
+         "primitive variables, global cell order) are compared with a plain sequential execution of the scheme's "
+         "sweeps on one undivided block started from the same state (harness calls the sweep functions in "
+         "canonical order, periodic axes through the block's self-neighbour sweep). Tolerance 1e-11 of the local "
+         "scale for conserved variables (measured maximum on the unchanged tree: 8e-14), propagated to the "
+         "primitive variables.",
+    note="the reference reuses the code's sweep functions; errors common to both sides belong to C04/C05. "
+         "Bitwise run-to-run reproducibility with one thread is exercised by the determinism gate (same seed twice).",
+    technique="deterministic simulation: refinement of the simulated parallel step against a sequential reference execution",
+    engine="E-RHD", design_ref="6/C10")
+CLAIMED["C04"] = dict(
+    level="exploration",
+    text="Same simulated RHD runs over generated initial states (background + blocks: density contrasts 1e-8..1e3, "
+         "temperature contrasts, velocities up to Mach 2), adiabatic indices, cell shapes, fixed and CFL steps, "
+         "layouts and thread counts. Per step: totals of mass, momentum, energy in long double with compensated "
+         "summation must agree within 1e-12 in periodic boxes (all five) and in closed boxes with reflecting walls "
+         "(mass, energy; only when no wall-adjacent cell moves towards the wall faster than its sound speed), "
+         "unless a positivity clamp fired; all cell states finite and non-negative after every step.",
+    note="input dimension is sampled by the swarm; conservation is not demanded in steps where a positivity clamp "
+         "fired (counted) or gas hits a wall supersonically (counted)",
+    technique="deterministic simulation: conservation invariants checked per step over seeded schedules and inputs",
+    engine="E-RHD", design_ref="6/C04")
+
 PENDING = {}
 
 
@@ -133,8 +171,8 @@ def main():
             "enable": "harness objects are compiled from /repo/src with -DCMACIONIZE_VERIF (and "
                       "-DCMACIONIZE_VERIF_PHOTONBUFFER_SIZE=<n> for the small-buffer variants) by /verif/Makefile; "
                       "the hooks call extern \"C\" functions defined in /verif/detsim",
-            "baseline_off_cmd": "cd /repo && cmake -G Ninja -B _build >/dev/null && cmake --build _build -j16 >/dev/null "
-                                "&& ctest --test-dir _build -j8 --timeout 900",
+            "baseline_off_cmd": "cd /repo && (cmake --build _build -j16 -- -k0 >/dev/null 2>&1; "
+                                "ctest --test-dir _build -j8 --timeout 900)",
             "source_commits": [c.split()[0] for c in commits],
             "add_only": True,
         },
@@ -145,6 +183,8 @@ def main():
              "kind_free_text": "TimeLine driven by request histories with save/restore faults"},
             {"name": "E-FS", "path": "engines/efs.cpp", "serves_properties": ["C14"],
              "kind_free_text": "restart dump rotation in forked children with process death at numbered file-system operations"},
+            {"name": "E-RHD", "path": "engines/erhd.cpp", "serves_properties": ["C04", "C07", "C10"],
+             "kind_free_text": "whole TaskBasedRadiationHydrodynamicsSimulation::do_simulation runs inside the simulator"},
             {"name": "E-ION", "path": "engines/eion.cpp", "serves_properties": ["C01", "C03"],
              "kind_free_text": "whole TaskBasedIonizationSimulation runs from generated parameter files inside the simulator"},
         ],
